@@ -154,6 +154,7 @@ FAULT_LEAF = {
     'duplicate-beta-column': (N(['Beta', 'x2', False]), 'x2'),
     'duplicate-free-fixed': (N(['Beta', 'b_dup', True]), 'b_dup'),
     'var-outside-trajectory': (N(['Var', 'x2']), 'x2'),
+    'draws-two-types': (N(['Draws', 'xi', 'UNIFORM']), 'xi'),
 }
 LEAF_TYPES = {
     'missing-column': {'real', 'pos', 'nz', 'key', 'bool01', 'var'},
@@ -164,10 +165,11 @@ LEAF_TYPES = {
     'var-outside-trajectory': {'real', 'var'},
     'logit-keys': {'real'},
     'logit-choice': {'real'},
+    'draws-two-types': {'real'},
 }
-EXCLUDED_FRAME = {'draws-outside': 'MonteCarlo', 'rv-outside': 'Integrate'}
+EXCLUDED_FRAME = {'draws-outside': 'MonteCarlo', 'rv-outside': 'Integrate', 'draws-two-types': 'MonteCarlo'}
 FORMULA_KINDS = ['missing-column', 'draws-outside', 'rv-outside', 'duplicate-beta-column', 'duplicate-free-fixed',
-                 'var-outside-trajectory', 'logit-keys', 'logit-choice']
+                 'var-outside-trajectory', 'logit-keys', 'logit-choice', 'draws-two-types']
 FRAME_BETAS = {'bfr': {'value': 0.5, 'fixed': False, 'positive': True, 'lb': None, 'ub': None},
                # value 1: a valid key / alternative where the planted parameter sits in a key or choice slot
                'x2': {'value': 1.0, 'fixed': False, 'positive': True, 'lb': None, 'ub': None},
@@ -255,6 +257,11 @@ def gen_fault_case(rng, kind, target, depth):
         bad, mention = FAULT_LEAF[kind]
         good = BENIGN[target[2]]
         variant = None
+        if kind == 'draws-two-types':
+            good = N(['Draws', 'xi', 'NORMAL'])
+            inner = mk
+            # both declarations under one MonteCarlo: the companion is declared NORMAL
+            mk = lambda h, inner=inner: N(['Un', 'MonteCarlo'], [N(['Bin', 'Plus'], [inner(h), N(['Draws', 'xi', 'NORMAL'])])])  # noqa: E731
         if kind == 'duplicate-free-fixed':
             extra = N(['Beta', 'b_dup', False])
     for nm, b in FRAME_BETAS.items():
@@ -289,11 +296,12 @@ ENTRIES = {
     'missing-column': ['biogeme', 'gvc', 'biogeme_dict', 'gvd', 'biogeme_weight'],
     'draws-outside': ['biogeme', 'gvc', 'biogeme_dict', 'gvd'],
     'rv-outside': ['biogeme', 'gvc', 'biogeme_dict', 'gvd'],
-    'duplicate-beta-column': ['biogeme', 'gvc', 'biogeme_dict', 'gvd'],
-    'duplicate-free-fixed': ['biogeme', 'gvc', 'biogeme_dict', 'gvd'],
+    'duplicate-beta-column': ['biogeme', 'gvc', 'idmanager', 'biogeme_dict', 'gvd'],
+    'duplicate-free-fixed': ['biogeme', 'gvc', 'idmanager', 'biogeme_dict', 'gvd'],
     'var-outside-trajectory': ['biogeme', 'biogeme_dict'],
     'logit-keys': ['biogeme', 'gvc', 'biogeme_dict', 'gvd'],
     'logit-choice': ['biogeme', 'gvc', 'biogeme_dict', 'gvd'],
+    'draws-two-types': ['biogeme', 'gvc', 'idmanager', 'biogeme_dict', 'gvd'],
 }
 
 
@@ -306,6 +314,8 @@ def entries_for(rng, c):
     first = es[:2]
     rest = es[2:]
     chosen = first + ([rng.choice(rest)] if rest else [])
+    if 'idmanager' in es and 'idmanager' not in chosen:
+        chosen.append('idmanager')          # the IdManager itself is an entry point for the rules it owns
     if c['panel']:
         chosen = [e for e in chosen if e != 'biogeme_weight']
     # derivatives of an integral / a derivative node are outside the differentiable fragment of the engine
@@ -322,7 +332,7 @@ COQ_HEADER = ('From BV Require Import Model.Expr Model.IdMgr Model.Audit Gen.Aud
               ' | EMissingColumn x => "M:" ++ x | EMcNoDraws => "mc-nodraws" | EMcNested => "mc-nested"\n'
               ' | EMcPanelNoTraj => "mc-panel" | ETrajNotPanel => "traj-notpanel" | EIntNoRV => "int-norv"\n'
               ' | ELogitKeys => "logit-keys" | ELogitChoice => "logit-choice" | ELogitChoiceNotInAv => "logit-raised"\n'
-              ' | EDuplicate => "dup" | EDrawsOutside n => "D:" ++ n | ERvOutside n => "R:" ++ n\n'
+              ' | EDuplicate => "dup" | EDrawTypes n => "T:" ++ n | EDrawsOutside n => "D:" ++ n | ERvOutside n => "R:" ++ n\n'
               ' | EVarOutsideTraj n => "V:" ++ n | EHessianNoGradient => "hess" | ENonNumeric c => "N:" ++ c\n'
               ' | ENaN => "nan" | ENoEntry => "empty" end.\n'
               'Fixpoint ins (x : string) (l : list string) := match l with [] => [x]\n'
@@ -344,8 +354,7 @@ def coq_dy(x):
 
 def coq_db(rows, panel):
     cols = list(rows[0].keys()) if rows else []
-    rs = '[' + '; '.join('[' + '; '.join(f'({coq_string(k)}, {coq_dy(v)})' for k, v in r.items()
-                                          if k in (KEY_NAME, 'kbad', 'kgood')) + ']' for r in rows) + ']'
+    rs = '[' + '; '.join('[' + '; '.join(f'({coq_string(k)}, {coq_dy(v)})' for k, v in r.items()) + ']' for r in rows) + ']'
     return f'(mkDb {coq_strs(cols)} {rs} {"true" if panel else "false"})'
 
 
@@ -379,7 +388,7 @@ def expected_code(c):
     m = c['mention']
     return {'missing-column': 'M:' + m, 'draws-outside': 'D:' + m, 'rv-outside': 'R:' + m, 'duplicate-beta-column': 'dup',
             'duplicate-free-fixed': 'dup', 'var-outside-trajectory': 'V:' + m, 'logit-keys': 'logit-keys',
-            'logit-choice': None}[k]
+            'logit-choice': None, 'draws-two-types': 'T:' + m}[k]
 
 
 def judge_fault(ctx, st, c, entry, r, cov):
@@ -428,6 +437,160 @@ def judge_twin(ctx, c, entry, r):
         return 'numeric'          # a numerical failure of the evaluation, not a refusal of the specification
     ctx.violation(key, f'a specification without fault is rejected by {entry} ({r.get("exc")})', wit, 'accepted', r)
     return 'bad'
+
+
+DRAW_TYPES = ['NORMAL', 'UNIFORM', 'UNIFORMSYM', 'NORMAL_ANTI', 'UNIFORM_ANTI', 'NORMAL_HALTON2', 'UNIFORM_HALTON3']
+SIMPLE_FORMULAS = [N(['Bin', 'Times'], [N(['Beta', 'bfr', False]), N(['Var', 'x1'])]),
+                   N(['Bin', 'Plus'], [N(['Var', 'x2']), HALF]),
+                   N(['Un', 'Exp'], [N(['Bin', 'Times'], [HALF, N(['Var', 'x3'])])])]
+
+
+def gen_across_cases(rng, rounds):
+    """one draw name declared with two different distributions in two DIFFERENT formulas of a specification of 2-4
+    formulas, for every ordered pair of positions; each formula is consistent on its own"""
+    out = []
+    for rnd in range(rounds):
+        for n in (2, 3, 4):
+            for p in range(n):
+                for q in range(n):
+                    if p == q:
+                        continue
+                    t1, t2 = rng.sample(DRAW_TYPES, 2)
+                    base = gen_case(rng, variables=True, max_depth=2, n_rows=3)
+                    betas = dict(base['betas'])
+                    for nm, b in FRAME_BETAS.items():
+                        betas.setdefault(nm, dict(b))
+
+                    def wrapped(ty):
+                        frames = [rng.choice([f for f in FRAMES if f[2] == 'real' and f[0] not in ('MonteCarlo', 'Catalog')])
+                                  for _ in range(rng.choice([0, 1, 2]))]
+                        frames = [f for i, f in enumerate(frames) if f[0] != 'Integrate' or 'Integrate' not in [g[0] for g in frames[:i]]]
+
+                        def mk(ty2):
+                            x = N(['Draws', 'xi', ty2])
+                            for f in reversed(frames):
+                                x = f[3](x)
+                            return N(['Un', 'MonteCarlo'], [x])
+                        return mk, [f'{f[0]}.{f[1]}' for f in frames]
+                    mk_p, ch_p = wrapped(t1)
+                    mk_q, ch_q = wrapped(t2)
+                    names = ['log_like', 's1', 's2', 's3'][:n]
+                    if rnd % 2:
+                        names[-1] = 'weight'
+
+                    def spec(tq):
+                        trees, o = [], 0
+                        for i, nm in enumerate(names):
+                            if i == p:
+                                trees.append([nm, mk_p(t1)])
+                            elif i == q:
+                                trees.append([nm, mk_q(tq)])
+                            else:
+                                trees.append([nm, SIMPLE_FORMULAS[o]])
+                                o += 1
+                        return trees
+                    out.append({'kind': 'draws-types-across', 'n': n, 'p': p, 'q': q, 'types': [t1, t2], 'names': names,
+                                'chains': [ch_p, ch_q], 'fault': spec(t2), 'twin': spec(t1), 'betas': betas, 'rows': base['rows'],
+                                'mention': 'xi'})
+    return out
+
+
+SLOT_VALUE = {'real': 0.5, 'pos': 1.5, 'nz': 1.5, 'key': 1.0, 'bool01': 1.0, 'var': 0.5}
+SETUPS = ['prepare-gvc', 'prepare-gvd', 'create_function', 'create_function_g', 'objective-f', 'objective-fg', 'objective-fgh']
+
+
+def simulate_script(c, tree, rows, script):
+    """the (formula with the member selected at that time, rows, columns) seen by each call of an evaluation history"""
+    rows = [dict(r) for r in rows]
+    sel = {}
+    views = []
+
+    def with_sel(t):
+        h = t['h']
+        if h[0] == 'Catalog' and h[1] in sel:
+            h = ['Catalog', h[1], sel[h[1]]]
+        return {'h': h, 'k': [with_sel(k) for k in t['k']]}
+    for op in script:
+        if op == 'call':
+            views.append((plain(with_sel(tree)), [dict(r) for r in rows]))
+        elif op[0] in ('rename', 'rename_inplace'):
+            rows = [{(op[2] if k == op[1] else k): v for k, v in r.items()} for r in rows]
+        elif op[0] == 'drop':
+            rows = [{k: v for k, v in r.items() if k != op[1]} for r in rows]
+        elif op[0] == 'set':
+            rows[op[2] % len(rows)][op[1]] = op[3]
+        elif op[0] == 'scale':
+            for r in rows:
+                r[op[1]] = r[op[1]] * op[2]
+        elif op[0] == 'select':
+            sel[op[1]] = int(op[2][1:])
+        elif op[0] == 'empty':
+            rows = []
+    return views
+
+
+def gen_evalhist(rng, c, idx):
+    """an evaluation history for a fault case: the SAME identifiers are used by every call (prepare_ids=False); the
+    specification is valid at some calls and faulty at others because the table or the selected catalog member changed"""
+    kind = c['kind']
+    rows = [dict(r) for r in c['rows']]
+    setup = SETUPS[idx % len(SETUPS)]
+    if has_heads(c['fault'], {'Derive', 'Integrate'}) and setup not in ('prepare-gvc', 'create_function', 'objective-f'):
+        setup = ['prepare-gvc', 'create_function', 'objective-f'][idx % 3]
+    ttype = next((f[2] for f in FRAMES if f'{f[0]}.{f[1]}' == c['frame']), 'real')
+    mode = None
+    if kind == 'missing-column' and idx % 2 == 0:
+        mode = 'data'
+        for r in rows:
+            r['unused_col'] = 0.25
+            r['zz'] = SLOT_VALUE[ttype]                  # last column: the formula is valid while it exists
+        tree = c['fault']
+        scripts = [('valid-then-renamed', ['call', ['rename', 'zz', 'zz_old'], 'call'], [True, False]),
+                   ('valid-then-dropped', ['call', ['drop', 'zz'], 'call'], [True, False]),
+                   ('renamed-then-restored', [['rename', 'zz', 'zz_old'], 'call', ['rename', 'zz_old', 'zz'], 'call'], [False, True]),
+                   ('valid-renamed-restored', ['call', ['rename_inplace', 'zz', 'zz_old'], 'call', ['rename_inplace', 'zz_old', 'zz'], 'call'],
+                    [True, False, True]),
+                   ('harmless-rename', ['call', ['rename', 'unused_col', 'unused_2'], 'call'], [True, True])]
+        mention = 'zz'
+    elif kind == 'logit-choice' and c['variant'] == 'column':
+        mode = 'data'
+        tree = c['fault']
+        good = [r['kgood'] for r in rows]
+        bad = [r['kbad'] for r in rows]
+        for r, g in zip(rows, good):
+            r['kbad'] = g
+        j = next(i for i, v in enumerate(bad) if v == 77.0)
+        scripts = [('valid-then-edited', ['call', ['set', 'kbad', j, 77.0], 'call'], [True, False]),
+                   ('edited-then-restored', [['set', 'kbad', j, 77.0], 'call', ['set', 'kbad', j, good[j]], 'call'], [False, True]),
+                   ('valid-then-scaled', ['call', ['scale', 'kbad', 77.0], 'call'], [True, False], 'Chosen alternative')]
+        mention = '77'
+    elif kind in ('missing-column', 'logit-keys', 'logit-choice'):
+        mode = 'catalog'
+        # (a catalog at the very TOP of a formula cannot be evaluated with stored identifiers at all in this code base:
+        #  MultipleExpression.set_id_manager never records the manager on the catalog itself -- reported, not judged)
+        if idx % 4 < 2:
+            tree = N(['Bin', 'Plus'], [HALF, N(['Catalog', 'catin', 0], [c['twin'], c['fault']])])
+            where = 'inner'
+        else:
+            tree = N(['Un', 'Exp'], [N(['Bin', 'Times'], [num(1, -4), N(['Catalog', 'catin', 0], [c['twin'], c['fault']])])])
+            where = 'inner-exp'
+        cn = 'catin'
+        scripts = [(f'{where}-catalog-valid-then-faulty', ['call', ['select', cn, 'm1'], 'call'], [True, False]),
+                   (f'{where}-catalog-faulty-then-valid', [['select', cn, 'm1'], 'call', ['select', cn, 'm0'], 'call'], [False, True]),
+                   (f'{where}-catalog-valid-faulty-valid', ['call', ['select', cn, 'm1'], 'call', ['select', cn, 'm0'], 'call'],
+                    [True, False, True])]
+        mention = c['mention']
+    if mode is None:
+        return None
+    sc = scripts[(idx // 2) % len(scripts)]
+    name, script, expect = sc[:3]
+    if len(sc) > 3:
+        mention = sc[3]
+    # at least one free parameter: the object of create_objective_function caches its values by point
+    tree = N(['Bin', 'Plus'], [tree, N(['Bin', 'Times'], [ZERO, N(['Beta', 'bfr', False])])]) if tree['h'][0] != 'Catalog' else \
+        N(['Catalog', tree['h'][1], 0], [N(['Bin', 'Plus'], [m, N(['Bin', 'Times'], [ZERO, N(['Beta', 'bfr', False])])]) for m in tree['k']])
+    return {'kind': kind, 'frame': c['frame'], 'chain': c['chain'], 'setup': setup, 'history': name, 'script': script,
+            'expect': expect, 'tree': tree, 'betas': c['betas'], 'rows': rows, 'mention': mention, 'mode': mode}
 
 
 def stream_faults(ctx):
@@ -488,7 +651,7 @@ def stream_faults(ctx):
                 meta.append((ci, which, 'biogeme_multi'))
             mk = f'{where}|{c["kind"]}'
             multi_cov[mk] = multi_cov.get(mk, 0) + 1
-    res = ctx.impl_cases('c12_faults.py', items, chunk=30, timeout=1200)
+    res = ctx.impl_cases('c12_faults.py', items, chunk=ctx.n(64, 40), timeout=1200)
     cov = {}
     twin_stats = {'ok': 0, 'numeric': 0, 'bad': 0}
     coq_items, coq_meta = [], []
@@ -607,6 +770,174 @@ def eval_methods(ctx, sm, coq_items, coq_meta):
                         {k: r.get(k) for k in ('audit', 'audit_exc', 'check_draws', 'check_rv', 'check_panel_trajectory')})
 
 
+# =========================================================================================== stream: histories, draw types
+def stream_histories(ctx):
+    sh = ctx.stream('eval_histories', 'REPEATED evaluations with the same identifiers (expr.prepare then get_value_c / '
+                    'get_value_and_derivatives with prepare_ids=False; the function of create_function; f / f_g / f_g_h of '
+                    'create_objective_function): between the calls a column read by the formula is renamed / dropped / restored, '
+                    'a choice column is edited or rescaled, or another member of a top / inner catalog is selected, in both '
+                    'orders (valid then faulty, faulty then valid, valid-faulty-valid); every call is judged: BiogemeError naming '
+                    'the element when the specification is faulty AT THAT CALL, a value otherwise; the verdict of each call is also '
+                    'compared with Model/Audit.v eval_errors; non-trivial = a history with a faulty call')
+    sd = ctx.stream('dict_draw_types', 'specifications of 2-4 formulas in which one draw name is declared with two different '
+                    'distributions in two DIFFERENT formulas (each consistent alone), for every ordered pair of positions, under '
+                    'random frames: BIOGEME(db, dict) and IdManager(formulas, db, n) must refuse with BiogemeError naming the draw; '
+                    'same type in both = accepted; vs Model/Audit.v idmanager_errors with the extracted scope')
+    rng = ctx.sub_rng('histories')
+    items, meta = [], []
+    # ---- evaluation histories on fault cases
+    hkinds = ['missing-column', 'logit-keys', 'logit-choice']
+    hcases = []
+    idx = ctx.seed
+    for rnd in range(ctx.n(1, 6)):
+        for target in FRAMES:
+            if target[0] in ('Catalog',):
+                continue
+            kinds = [k for k in hkinds if target[2] in LEAF_TYPES[k]]
+            if not kinds:
+                continue
+            k = kinds[(rnd + FRAMES.index(target) + ctx.seed) % len(kinds)]
+            c = None
+            for _ in range(4):
+                c0 = gen_fault_case(rng, k, target, rng.choice([2, 3]))
+                if not c0['panel']:
+                    c = c0
+                    break
+            if c is None:
+                continue
+            h = gen_evalhist(rng, c, idx)
+            idx += 1
+            if h is None:
+                continue
+            hcases.append(h)
+            items.append({'mode': 'evalhist', 'tree': h['tree'], 'betas': h['betas'], 'rows': h['rows'], 'panel': False,
+                          'setup': h['setup'], 'script': h['script'], 'ndraws': 5})
+            meta.append(('hist', h))
+    # ---- draw types across formulas
+    across = gen_across_cases(rng, ctx.n(1, 4))
+    for c in across:
+        for which in ('fault', 'twin'):
+            for e in ('biogeme_multi', 'idmanager_multi'):
+                items.append({'mode': 'formula', 'trees': c[which], 'betas': c['betas'], 'rows': c['rows'], 'panel': False,
+                              'entry': e, 'ndraws': 6})
+                meta.append(('across', (c, which, e)))
+    for c in load_corpus('evalhist'):
+        items.append(c['item'])
+        meta.append(('hist', c['case']))
+    res = ctx.impl_cases('c12_faults.py', items, chunk=20, timeout=1200)
+    checks, cmeta = [], []
+    cov = {}
+    for (what, info), r in zip(meta, res):
+        if what == 'across':
+            c, which, e = info
+            light = {'kind': c['kind'], 'formulas': c['names'], 'positions': [c['p'], c['q']], 'types': c['types'], 'chains': c['chains'],
+                     'entry': e, 'which': which}
+            sd.record(light, nontrivial=which == 'fault')
+            wit = dict(light)
+            wit.update({'trees': c[which], 'betas': c['betas'], 'rows': c['rows'], 'mention': 'xi', 'tree': c[which][0][1], 'panel': False})
+            ck = f'{c["n"]}:{c["p"]}-{c["q"]}'
+            cov[ck] = cov.get(ck, 0) + 1
+            if which == 'fault':
+                key = f'C12/faults/draws-types-across/{e}/{c["n"]}-formulas-{c["p"]}-{c["q"]}'
+                what_s = (f'draw xi declared {c["types"][0]} in formula {c["names"][c["p"]]} and {c["types"][1]} in formula '
+                          f'{c["names"][c["q"]]} of one specification')
+                if 'crash' in r or r.get('status') == 'accepted':
+                    ctx.violation(key, what_s + f': accepted by {e}', wit, 'BiogemeError naming xi', r if 'crash' not in r else r['crash'])
+                elif not r.get('biogeme'):
+                    ctx.violation(key, what_s + f': surfaces as {r.get("exc")}', wit, 'BiogemeError naming xi', r)
+                elif 'xi' not in (r.get('msg') or ''):
+                    ctx.violation(key + '/message', what_s + ': the message does not name the draw', wit, 'xi', r)
+            else:
+                if r.get('status') != 'accepted' and not (r.get('engine') and e == 'biogeme_multi' and c['names'][-1] == 'weight'):
+                    ctx.violation(f'C12/faults/valid-rejected/draws-types-across/{e}', 'one draw name with the same type in two formulas is refused',
+                                  wit, 'accepted', r if 'crash' not in r else r['crash'])
+            if e == 'idmanager_multi':
+                fs = '[' + '; '.join(json_to_coq(plain(t)) for _, t in c[which]) + ']'
+                cols = coq_strs(list(c['rows'][0].keys()))
+                refused = 'true' if r.get('status') == 'raised' and r.get('biogeme') else 'false'
+                checks.append(f'Bool.eqb (nonempty (idmanager_errors gen_draw_scope {fs} {cols})) {refused}')
+                cmeta.append((sd, light, r))
+                if which == 'fault':
+                    checks.append(f'has "T:xi" (idmanager_errors gen_draw_scope {fs} {cols})')
+                    cmeta.append((sd, light, r))
+            continue
+        h = info
+        light = {'kind': h['kind'], 'frame': h['frame'], 'setup': h['setup'], 'history': h['history'], 'tree': plain(h['tree'])}
+        wit = {k: h[k] for k in ('kind', 'frame', 'chain', 'setup', 'history', 'script', 'expect', 'tree', 'betas', 'rows', 'mention')}
+        key = f'C12/faults/{h["kind"]}/evalhist-{h["setup"]}/{h["history"]}'
+        if 'crash' in r:
+            ctx.violation(key, 'the process died during a history of evaluations', wit, h['expect'], r['crash'])
+            continue
+        if r.get('status') != 'done':
+            # the set-up itself (prepare / create_function on the valid specification) failed
+            if r.get('engine'):
+                sh.evaluations += 1
+                continue
+            ctx.violation(f'C12/faults/valid-rejected/evalhist-{h["setup"]}/{h["history"]}', 'a valid specification is refused when the '
+                          'evaluation is set up', wit, 'accepted', r)
+            continue
+        calls = r['calls']
+        views = simulate_script(h, h['tree'], h['rows'], h['script'])
+        numeric = False
+        sh.record(light, nontrivial=not all(h['expect']))
+        ck = f'{h["setup"]}|{h["history"]}'
+        cov[ck] = cov.get(ck, 0) + 1
+        for i, (exp_ok, call) in enumerate(zip(h['expect'], calls)):
+            if call.get('status') == 'skipped' or numeric:
+                break
+            if exp_ok:
+                if call.get('status') == 'accepted':
+                    continue
+                if call.get('engine'):
+                    numeric = True       # a numerical failure of the evaluation of a valid observation
+                    continue
+                ctx.violation(f'C12/faults/valid-rejected/evalhist-{h["setup"]}/{h["history"]}', f'call {i + 1} of the history: the '
+                              'specification is valid at that moment and is refused', wit, 'a value', call)
+            else:
+                if call.get('status') == 'accepted':
+                    ctx.violation(key, f'call {i + 1} of the history ({h["history"]}, same identifiers): the specification is faulty at '
+                                  f'that moment ({h["kind"]}) and a value is produced: {json.dumps(call.get("value"))[:80]}', wit,
+                                  f'BiogemeError naming {h["mention"]}', call)
+                elif not call.get('biogeme'):
+                    ctx.violation(key, f'call {i + 1} of the history ({h["history"]}): the fault ({h["kind"]}) surfaces as '
+                                  f'{call.get("exc")}', wit, f'BiogemeError naming {h["mention"]}', call)
+                elif h['mention'] not in (call.get('msg') or ''):
+                    ctx.violation(key + '/message', f'call {i + 1}: the message does not name {h["mention"]}', wit, h['mention'], call)
+            # the model's verdict for this call
+        for i, (exp_ok, (t, rows_i)) in enumerate(zip(h['expect'], views)):
+            if not rows_i:
+                continue
+            checks.append(f'Bool.eqb (nonempty (eval_errors G {coq_db(rows_i, False)} {json_to_coq(t)} true true true)) '
+                          f'{"false" if exp_ok else "true"}')
+            cmeta.append((sh, light, {'call': i + 1}))
+    B = 120
+    files = {f'c12_hist_{i // B}': COQ_HEADER + 'Eval vm_compute in [\n' + ';\n'.join(checks[i:i + B]) + '].\n'
+             for i in range(0, len(checks), B)}
+    outs = ctx.coq_eval_many(files)
+    for i in range(0, len(checks), B):
+        ok, out = outs[f'c12_hist_{i // B}']
+        bs = parse_bools(out) if ok else []
+        if len(bs) != len(checks[i:i + B]):
+            ctx.stream_broken('eval_histories', 'model evaluation failed: ' + out[-900:])
+            continue
+        for (stx, light, r), b in zip(cmeta[i:i + B], bs):
+            if not b:
+                stx.disagree(light, 'the verdict of the model (refused / accepted) differs from the expected one', r)
+    sh.extra['coverage_setup_x_history'] = {k: v for k, v in cov.items() if '|' in k}
+    sd.extra['coverage_positions'] = {k: v for k, v in cov.items() if '|' not in k}
+    for stp in SETUPS:
+        if not any(k.startswith(stp + '|') for k in cov):
+            ctx.stream_broken('eval_histories', f'coverage floor: no history through {stp}')
+    for n in (2, 3, 4):
+        for p_ in range(n):
+            for q_ in range(n):
+                if p_ != q_ and f'{n}:{p_}-{q_}' not in cov:
+                    ctx.stream_broken('dict_draw_types', f'coverage floor: positions {n}:{p_}-{q_} not exercised')
+    for stx in (sh, sd):
+        if stx.disagreements:
+            ctx.stream_broken(stx.name, f'{len(stx.disagreements)} disagreements; first: {json.dumps(stx.disagreements[0], default=str)[:900]}')
+
+
 # =========================================================================================== stream: requests, data, nests
 DATA_BAD = [('str-object', 'N'), ('numeric-strings', 'N'), ('mixed-object', 'N'), ('string-dtype', 'N'), ('category', 'N'),
             ('datetime', 'N'), ('timedelta', 'N'), ('list-cells', 'N'), ('nan-float', 'nan'), ('none-object', 'nan'),
@@ -697,6 +1028,13 @@ def stream_other(ctx):
                         x = rng.choice(parts[i])
                         parts[j].insert(rng.randrange(len(parts[j]) + 1), x)
                         nest_item(fn, alts, parts, 'overlap', str(x), f'{k}:{i}-{j}')
+            # an alternative listed twice in the nest at EVERY position (nested logit; the alphas of a cross-nested nest are a dict)
+            for i in range(k):
+                alts, parts = partition(k)
+                x = rng.choice(parts[i])
+                parts[i].insert(rng.randrange(len(parts[i]) + 1), x)
+                nest_item(nested_fns[fi % len(nested_fns)], alts, parts, 'repeat', str(x), f'{k}:{i}')
+                fi += 1
             # an alternative outside the choice set in the nest at EVERY position
             for i in range(k):
                 for fn in (nested_fns[fi % len(nested_fns)], cnl_fns[fi % len(cnl_fns)]):
@@ -835,7 +1173,7 @@ def stream_other(ctx):
             cov[pk] = cov.get(pk, 0) + 1
             wit = {k: it[k] for k in ('func', 'choice_set', 'nests', 'old_syntax', 'avail')}
             wit['positions'] = pair
-            should_refuse = fault == 'outside' or (fault == 'overlap' and not cross)
+            should_refuse = fault in ('outside', 'repeat') or (fault == 'overlap' and not cross)
             key = f'C12/faults/nests-{fault}/{fn}' if should_refuse else f'C12/faults/valid-rejected/nests/{fn}'
             if should_refuse:
                 if 'crash' in r or r.get('status') == 'accepted':
@@ -1085,10 +1423,32 @@ def run(ctx):
         ctx.notes['recursion_table'] = {c: {m: f'{v[0]}:{v[1]}' for m, v in row.items()} for c, row in table.items()}
     except Untranslatable as e:
         ctx.tie_broken('py2v:audit recursion table', str(e))
-    ctx.build()
-    stream_faults(ctx)
-    stream_other(ctx)
-    stream_missing(ctx)
+    try:
+        ctx.build()
+        stream_faults(ctx)
+        stream_histories(ctx)
+        stream_other(ctx)
+        stream_missing(ctx)
+    finally:
+        restore_generated(ctx)
+
+
+def restore_generated(ctx):
+    """after a trial against a scratch tree (VERIF_REPO test hook) put back the table of the registered repository, so that
+    the shared Rocq tree never keeps a table generated from (or left over by) a modified source"""
+    import common
+    from pathlib import Path
+    if str(common.REPO) == '/repo':
+        return
+    keep = ext.SRC
+    try:
+        ext.SRC = Path('/repo/src/biogeme')
+        table, _ = ext.build_table()
+        ctx.gen('AuditTable', ext.emit(table))
+    except Exception:  # noqa
+        pass
+    finally:
+        ext.SRC = keep
 
 
 def replay(ctx, path):
